@@ -410,7 +410,9 @@ coalesceLoop:
 	for {
 		select {
 		case it2 := <-db.requestedIterations:
-			if it2.t == it.t {
+			if it2.t == it.t && it2.includeMemStore == it.includeMemStore {
+				// Only coalesce iterations that read from the same stores, otherwise
+				// a disk-only query would see memstore data (or vice versa)
 				iterations = append(iterations, it2)
 			} else {
 				iterationsForOtherTables = append(iterationsForOtherTables, it2)
@@ -421,8 +423,8 @@ coalesceLoop:
 		}
 	}
 
-	// re-enqueue iterations for other tables since we won't be handling them
-	// here
+	// re-enqueue iterations that can't share this scan (other tables, different
+	// stores) since we won't be handling them here
 	for _, otherIt := range iterationsForOtherTables {
 		db.requestedIterations <- otherIt
 	}
